@@ -115,6 +115,15 @@ func matchSeq(got, want []Dep) string {
 	return ""
 }
 
+func declared(ds []Dep, group, artifact string) bool {
+	for _, d := range ds {
+		if d.Group == group && d.Artifact == artifact {
+			return true
+		}
+	}
+	return false
+}
+
 func same(w, g Dep) bool { return w.Group == g.Group && w.Artifact == g.Artifact && w.Scope == g.Scope }
 
 // ---------------------------------------------------------------------------------------
@@ -213,9 +222,9 @@ type depSpec struct {
 	CommentBefore bool
 	CommentedOut  bool
 	// added by the widening round (zero value = the plain variant)
-	SameArtifactAs int // k > 0: the artifact id of the (k-1)th earlier dependency when that one has another group id
-	EmptyScope     int // 1 <scope/>, 2 <scope></scope> (only when Scope == 0)
-	CommentInside  int // k > 0: a comment before the (k-1)th child of the <dependency>
+	SameArtifactAs int  // k > 0: the artifact id of the (k-1)th earlier dependency when that one has another group id
+	EmptyScope     int  // 1 <scope/>, 2 <scope></scope> (only when Scope == 0)
+	CommentInside  int  // k > 0: a comment before the (k-1)th child of the <dependency>
 	EmptyExcl      bool // <exclusions/> (only when Exclusions == 0)
 }
 
@@ -485,7 +494,7 @@ func renderPom(p pomSpec, n *namer) pomOut {
 			}
 			dep := Dep{Group: group, Artifact: n.artifact(group, ds.ArtKind)}
 			if ds.SameArtifactAs > 0 && d > 0 {
-				if o := out.Deps[(ds.SameArtifactAs-1)%d]; o.Group != group {
+				if o := out.Deps[(ds.SameArtifactAs-1)%d]; !declared(out.Deps, group, o.Artifact) {
 					dep.Artifact = o.Artifact
 					feats["artifact_id_shared_by_two_groups"] = true
 				}
@@ -893,7 +902,7 @@ func renderGradle(g gradleSpec, n *namer) gradleOut {
 		}
 		art := n.artifact(group, e.ArtKind)
 		if e.SameArtifactAs > 0 && len(out.Entries) > 0 {
-			if o := out.Entries[(e.SameArtifactAs-1)%len(out.Entries)]; o.Group != group {
+			if o := out.Entries[(e.SameArtifactAs-1)%len(out.Entries)]; !declared(out.Entries, group, o.Artifact) {
 				art = o.Artifact
 				feats["artifact_id_shared_by_two_groups"] = true
 			}
@@ -1266,11 +1275,13 @@ func genProject(t *rapid.T) ProjCase {
 		feats["two_manifests"] = true
 		feats["two_gradle_scripts"] = true
 	default:
-		// the usual multi-project build: the root script declares nothing, the module's script does
-		addGradle("build.gradle", 4, true)
-		addGradle("module-b/build.gradle", 5, false)
+		// a multi-project build in which one script declares nothing: the root script (the usual case) or a module's
+		moduleIsBare := rapid.Bool().Draw(t, "bareScriptIsTheModule")
+		addGradle("build.gradle", 5, !moduleIsBare)
+		addGradle("module-b/build.gradle", 5, moduleIsBare)
 		feats["two_manifests"] = true
 		feats["two_gradle_scripts"] = true
+		feats["gradle_script_without_dependencies_block"] = true
 	}
 
 	uses := rapid.SliceOfN(rapid.Custom(func(t *rapid.T) groupUse {
@@ -1578,6 +1589,29 @@ func projVerdict(c ProjCase) pbt.Verdict {
 	v := pbt.Verdict{}
 	for _, f := range c.Features {
 		v.Classes = append(v.Classes, f)
+	}
+	if len(c.Manifests) == 2 {
+		both := false
+		for _, a := range c.Manifests[0].Entries {
+			for _, b := range c.Manifests[1].Entries {
+				both = both || (a.Group == b.Group && a.Artifact == b.Artifact)
+			}
+		}
+		if both {
+			v.Classes = append(v.Classes, "dependency_declared_in_both_manifests")
+		}
+	}
+	for _, m := range c.Manifests {
+		shared := false
+		for i, a := range m.Entries {
+			for _, b := range m.Entries[:i] {
+				shared = shared || (a.Artifact == b.Artifact && a.Group != b.Group)
+			}
+		}
+		if shared {
+			v.Classes = append(v.Classes, "artifact_id_shared_by_two_groups")
+			break
+		}
 	}
 	mixed := strings.Contains(pattern, "un") && strings.Contains(pattern, "nu")
 	if mixed {
